@@ -1,5 +1,6 @@
 import LettreVerif.Proofs.Client
 import LettreVerif.Proofs.TransportOnce
+import LettreVerif.Proofs.Tls
 /-!
 # C05 — A send reports success iff the server accepted the message; never twice
 
@@ -121,6 +122,60 @@ example :
     (match (c.send none [str "x@y.z"] (str "hi")).2 with
      | .error (.permanent cd t) => cd == (5, 5, 0) && t == str "no"
      | _ => false) = true := by
+  decide
+
+/-! ## connection set-up through a transport (`Model/Tls.lean`: `SmtpClient::connection`, then one send) -/
+
+open LV.Tls in
+/-- **A refused STARTTLS is reported as the server said it.** With required or opportunistic TLS, when the server that offered
+    STARTTLS answers the command with anything that is not an acceptance (a 4xx / 5xx reply, a malformed reply, a closed
+    connection: `e` is what reading that reply gives — `error_carries_code_and_text` applied to `c.write starttlsLine`), the
+    send fails with exactly that error, no handshake is attempted, nothing is written but the QUIT of `abort`, and the session
+    is never continued in clear. (Round 7 of the seeded changes: C05/m19 swallowed a 4xx here; the send then failed with a
+    network error on the aborted connection.) -/
+theorem starttls_refusal_reported (bc : Bool) (cfg : Cfg) (cs ts : List Step) (f : Option Bytes) (to : List Bytes) (msg : Bytes)
+    (c c' : Conn) (e : Err)
+    (hm : cfg.mode = .required ∨ cfg.mode = .opportunistic)
+    (hc : connect cs cfg.hello = (c, .ok ()))
+    (hs : c.supports (·.startTls) = true)
+    (hr : c.command starttlsLine = (c', .error e)) :
+    sendOnce bc cfg cs ts f to msg = (⟨some c'.abort, none, false⟩, .error e) := by
+  have hst : starttls bc cfg c ts = (⟨some c'.abort, none, false⟩, .error e) := by
+    unfold starttls
+    simp [hs, hr, tryAbort]
+  have hest : establish bc cfg cs ts = (⟨some c'.abort, none, false⟩, .error e) := by
+    unfold establish
+    rcases hm with h | h <;> simp [h, hc, hs, hst]
+  unfold sendOnce
+  rw [hest]
+
+open LV.Tls in
+/-- **A refused authentication is reported as the server said it**, and the message is never offered: when the connection is
+    established (in clear or inside TLS) and `auth` fails with `e` (the error of `auth_wire`: the server's 4xx / 5xx reply with
+    its code and text, a malformed reply, or no usable mechanism), the send fails with exactly `e` and nothing is written
+    after what `auth` wrote — no MAIL, no RCPT, no DATA. -/
+theorem auth_refusal_reported (bc : Bool) (cfg : Cfg) (cs ts : List Step) (f : Option Bytes) (to : List Bytes) (msg : Bytes)
+    (o : Out) (c c' : Conn) (prefs : List Mech) (u p : Bytes) (e : Err)
+    (he : establish bc cfg cs ts = (o, .ok ()))
+    (hsess : o.session = some c)
+    (hcr : cfg.creds = some (prefs, u, p))
+    (ha : c.auth prefs u p = (c', .error e)) :
+    sendOnce bc cfg cs ts f to msg = (o.withSession c', .error e) := by
+  unfold sendOnce
+  rw [he]
+  simp only [hsess, hcr, ha]
+
+open LV.Tls in
+/-- non-vacuity: opportunistic TLS, STARTTLS answered `454`: the send reports the transient 454 with its text, and the clear
+    channel carries EHLO, STARTTLS, QUIT and nothing else -/
+example :
+    let cs : List Step := [⟨str "220 hi\r\n", false⟩, ⟨str "250-srv\r\n250 STARTTLS\r\n", false⟩, ⟨str "454 tls not available\r\n", false⟩,
+      ⟨str "221 bye\r\n", false⟩]
+    let r := sendOnce true ⟨.opportunistic, true, str "me", none⟩ cs [] (some (str "a@b.c")) [str "x@y.z"] (str "m")
+    (match r.2 with
+      | .error (.transient cd t) => cd == (4, 5, 4) && t == str "tls not available"
+      | _ => false) = true ∧
+    r.1.clearUnits = [str "EHLO me\r\n", str "STARTTLS\r\n", str "QUIT\r\n"] ∧ r.1.tlsUnits = [] := by
   decide
 
 end LV.C05
